@@ -89,6 +89,7 @@ Inductive hev (h : hst) : list N -> st -> list (option nat) -> list N -> list na
 | HLeave i : existsb (Nat.eqb (n2n i)) (hexit h) = true ->
     hev h [17; i] (hs h) (hch h) [] (filter (fun k => negb (Nat.eqb k (n2n i))) (hexit h))
 | HAdvance d : hev h [11; d] (advance (hs h) d) (hch h) [] (hexit h)
+| HCancelRoot c : hev h [18; c] (cancel_root (hs h) (n2n c)) (hch h) [] (hexit h)
 | HTimer k t : nth_error (fired_sorted (timers (hs h))) (n2n k) = Some t ->
     hev h [12; k] (timer_cb repaired (hs h) t) (hch h) [] (hexit h)
 | HWaitExited rinr : hev h [13; rinr] (step repaired (hs h) (EWaitExited (nz rinr))) (hch h) [] (hexit h)
